@@ -102,6 +102,61 @@ def check(run):
                     add(s, pre + junk, ("PREFIX", len(cases) + 1, junk.hex()), "foreign tag 0x%x after %d groups" % (u, cut))
                     add(s, pre, None, "reference: the preceding bytes alone")
                     stats["foreign"] += 1
+    # (5) a foreign tag INSIDE a nested container (at every group boundary of the container's own fields): the packet is rejected, or
+    #     its value is that of the bytes preceding the tag — the enclosing fields before the container and the container with its
+    #     fields before the tag.  Tags unknown to every level, and tags which are fields of the ENCLOSING struct (the unread rest of
+    #     a container must not be read as the enclosing struct's own fields).
+    stats["nested"] = 0
+    for s in L["structs"]:
+        tags_out = {f["tag"] for f in s["fields"] if f["tag"] is not None}
+        for _ in range(40 if th else 10):
+            v, _b = layouts.gen_struct_value(rng, s)
+            if any(f["tag"] is None and f["ty"]["k"] == "opt" and x is None for f, x in zip(s["fields"], v[1])):
+                continue
+            pos, groups = split_groups(s, v)
+            for gi, (j, gb) in enumerate(groups):
+                f = s["fields"][j]
+                ty, x = f["ty"], v[1][j]
+                while ty["k"] in ("opt", "vec"):
+                    x = x[1] if ty["k"] == "opt" else (x[0] if x else None)
+                    ty = ty["t"]
+                    if x is None:
+                        break
+                if x is None or ty["k"] != "struct" or f["length"] not in ("LTlv",) or not any(g["tag"] is not None for g in ty["fields"]):
+                    continue
+                if f["ty"]["k"] == "vec" and len(v[1][j]) != 1:
+                    continue                                  # one element: the group IS the element
+                inner = {"fields": ty["fields"]}
+                ipos, igroups = split_groups(inner, x)
+                tags_in = {g["tag"] for g in ty["fields"] if g["tag"] is not None}
+                tb = layouts.tag_bytes(f["tag"])
+                for cut in range(len(igroups) + 1):
+                    head = ipos + b"".join(g[1] for g in igroups[:cut])
+                    tail = b"".join(g[1] for g in igroups[cut:])
+                    ref_body = pos + b"".join(g[1] for g in groups[:gi]) + tb + layouts.len_prefix(f["length"], len(head)) + head
+                    cands = []
+                    free = [t for t in range(1, 255) if t not in tags_out and t not in tags_in and t not in (0x1f, 0xff)]
+                    cands.append((rng.choice(free), None, None))
+                    for (j2, gb2) in groups:
+                        t2 = s["fields"][j2]["tag"]
+                        if j2 != j and t2 not in tags_in and s["fields"][j2]["ty"]["k"] != "vec":
+                            cands.append((t2, gb2, j2))
+                    absent = [g for g in s["fields"] if g["tag"] is not None and g["tag"] not in tags_in and g["tag"] not in {s["fields"][q]["tag"] for q, _ in groups}]
+                    if absent:
+                        cands.append((rng.choice(absent)["tag"], None, None))
+                    for (xt, xbytes, j2) in cands:
+                        junk = xbytes if xbytes is not None else (layouts.tag_bytes(xt) if xt > 255 else bytes([xt])) + bytes(rng.randrange(256) for _ in range(rng.randrange(0, 8)))
+                        payload = head + junk + tail
+                        if len(payload) > 60000:
+                            continue
+                        outer_rest = [g[1] for k2, g in enumerate(groups) if k2 > gi and g[0] != j2]
+                        outer_pre = [g[1] for k2, g in enumerate(groups) if k2 < gi and g[0] != j2]
+                        body = pos + b"".join(outer_pre) + tb + layouts.len_prefix(f["length"], len(payload)) + payload + b"".join(outer_rest)
+                        refb = pos + b"".join(outer_pre) + tb + layouts.len_prefix(f["length"], len(head)) + head
+                        kind = "NESTED-OUTER" if xt in tags_out else "NESTED"
+                        add(s, body, (kind, len(cases) + 1), "foreign tag 0x%x inside the container 0x%x after %d of its groups" % (xt, f["tag"], cut))
+                        add(s, refb, None, "reference: the bytes preceding it (the container closed there)")
+                        stats["nested"] += 1
     mo = vlib.run_sharded(drv, cases, run.workdir, "c13_model")
     io = vlib.run_sharded(codec, cases, run.workdir, "c13_impl")
     diffs = []
@@ -112,6 +167,17 @@ def check(run):
         if e is None:
             continue
         got = i.split(" re=")[0]
+        if isinstance(e, tuple) and e[0].startswith("NESTED"):
+            ref = io[e[1]].split(" re=")[0]
+            good = got.startswith("Err ") or (ref.startswith("Ok ") and got.split(" rem=")[0] == ref.split(" rem=")[0])
+            if not good:
+                run.violation(kind="input", case=c, expected=((ref.split(" rem=")[0] + " (or any rejection)") if ref.startswith("Ok ") else "a rejection")[:400],
+                              observed=got[:400], how_found="oracle",
+                              detail=w + ": must reject, or yield exactly the value of the bytes preceding it",
+                              **({"finding_class": "nested-foreign-tag-read-as-enclosing-field"} if e[0] == "NESTED-OUTER" else {}))
+            elif got.startswith("Ok "):
+                run.nontrivial.add(("nested", c.split("\t")[1], w))
+            continue
         if isinstance(e, tuple):
             ref = io[e[1]].split(" re=")[0]
             if ref.startswith("Ok "):
